@@ -365,6 +365,7 @@ impl AsServer<'_> {
                 let is_valid = addr.iter().all(|proto| match proto {
                     Protocol::P2pCircuit => false,
                     Protocol::P2p(peer_id) => peer_id == peer,
+                    Protocol::Ip4(_) | Protocol::Ip6(_) => proto == observed_ip,
                     _ => true,
                 });
 
